@@ -4,7 +4,6 @@ import KyupyVerif.Proofs.CircObjStats
 import KyupyVerif.Proofs.CircObjSubst
 import KyupyVerif.Proofs.CircObjSubstStatic
 import KyupyVerif.Proofs.CircObjSubstFull
-import KyupyVerif.Proofs.CircObjSubstOpen
 /-! # C09 — circuit graph stays consistent under every edit history
 
 Object of the theorems: the hand-written object-level model `KV.CircObj` (Model/CircObj.lean) of `kyupy/circuit.py`:
@@ -40,18 +39,15 @@ fork outputs contain no `None`, ports are nodes of the circuit (plus model bookk
     except gap-freeness of fork outputs — all arities, unconnected and ignored pins, ports read internally, state elements,
     removal of dangling logic included; via `substStatic_pre0` (structure ⇒ the run-time pin guards `substGuards`:
     `node_map` is injective, every occupied pin of an image stems from a copied implementation line or an instance pin);
-  - `substitute_wf_static` / `substStatic_pre`: in the regular case `substRegular` (every instance output connected, output
-    ports of the implementation with one input line, fork-ports gap-free) the result satisfies `WFc`; nothing is
-    evaluated along the run;
+  - `substitute_wf_static` / `substStatic_pre`: the same hypotheses give `WFc` of the result (and `substStatic` implies the
+    run-time precondition `substPre`): forks of the host stay gap-free (only `Line.remove` of an ignored input touches them),
+    copied forks are made dense again by the loop after the connecting loops (`densify`; an unconnected output pin of the
+    instance would otherwise leave a gap — the repair of D30), the removal of the dangling logic keeps all forks gap-free;
+    nothing is evaluated along the run;
   - `substitute_wf0` / `substitute_wf`: the same conclusions from the decidable run-time preconditions `substPre0` /
     `substPre` (kinds, no self loop, pin guards, `forksFull` of the result) with NO hypothesis on the implementation;
   - `resolve_wf` (`resolvePre`), `resolve_wf_static` (`resolveStatic`), uniformly `step2_wf`, and `history_wf2` /
     `history_wf2_prefix` for histories over all twelve operations.
-  - `substitute_wf_open` / `substStatic_pre_open`: open output pins.  `setPin` predicts structurally which output pins of
-    the copied nodes hold a line (exact: `setPin_sound`, `setPin_complete`); when for every copied fork these pins form an
-    initial segment (`substOpenOK`), the result (dangling logic removed) satisfies `WFc`;
-  What is NOT covered by a structural theorem: uses where `substOpenOK` is false — there the real code leaves a `None`
-  gap in a copied fork (D30, `exGap`); `substitute_wf0_static` still gives `WFc0` for them.
 * **Correspondence** (harness/c09.py, differential, not proof): the model against the real `kyupy.circuit` API on random
   edit histories — canonical dump after EVERY step (node kinds, names, pin lists as line indices, line ends, `io_nodes`,
   `cells`/`forks` in dictionary order, `stats`) must be equal, `pre` must accept every generated operation, and `invOK` of
@@ -61,7 +57,7 @@ fork outputs contain no `None`, ports are nodes of the circuit (plus model bookk
   raises; the value of `substPre` / `resolvePre` is reported per call, and where it is true `invOK` must be true.
 * **Oracle** (harness/c09.py): `WFc` stated directly over the Python objects (identity, not `Node.__eq__`) after every
   step (also after `substitute` / `resolve_tlib_cells` / `remove_dangling_nodes`); this, not the model, decides violations.
-  Known finding D30: `substitute` with an open output pin can leave a `None` gap in a copied fork (`exGap` below).
+  D30 (fixed): `substitute` with an open output pin left a `None` gap in a copied fork (`exGap` below is that use).
 * Outside the theorems: what Python does outside well-formed use (explicit pin on an occupied position, removing a node
   that still has lines or is a port, `eliminate_1to1_forks` on a 1:1 fork without / with several input lines) — probed by
   the harness and recorded as notes. -/
@@ -221,42 +217,27 @@ theorem substitute_wf0_static {c c' : Circ} {i : Nat} {impl : Circ} (wf : WFc c)
     (h : substituteObj c i impl = some c') : WFc0 c' := substitute_wf0 wf (substStatic_pre0 wf hst) h
 
 /-- ... and `WFc` when in addition the fork outputs of the result are gap-free (`substPre` = `substPre0` + `forksFull` of
-the result; D30 in known_findings.json is a use where the real code leaves a gap) -/
+the result; without hypotheses on the implementation a fork of the implementation with a gap is copied with it) -/
 theorem substitute_wf {c c' : Circ} {i : Nat} {impl : Circ} (wf : WFc c) (hpre : substPre c i impl = true)
     (h : substituteObj c i impl = some c') : WFc c' := KV.CircObj.substituteObj_wf wf hpre h
 
-/-- the regular case, structural precondition only: well-formed host and implementation, `substStatic`, and
-`substRegular` (every output of the instance is connected, every output port of the implementation has exactly one
-input line, ports that become forks have gap-free outputs) give `WFc` of the result.  Input pins may be unconnected
-or ignored by the implementation, ports may be read internally, the implementation may contain forks and state
-elements; nothing is evaluated along the run. -/
+/-- structural precondition only: well-formed host and implementation + `substStatic` give `WFc` of the result.  Instance
+pins may be unconnected, inputs may be ignored by the implementation, ports may be read internally, the implementation may
+contain forks and state elements, dangling logic behind open outputs is removed; nothing is evaluated along the run. -/
 theorem substitute_wf_static {c c' : Circ} {i : Nat} {impl : Circ} (wf : WFc c) (hst : substStatic c i impl = true)
-    (hreg : substRegular c i impl = true) (h : substituteObj c i impl = some c') : WFc c' :=
-  KV.CircObj.substituteObj_wf_static wf hst hreg h
+    (h : substituteObj c i impl = some c') : WFc c' := KV.CircObj.substituteObj_wf_static wf hst h
 
-/-- ... in other words the structural conditions imply the run-time precondition `substPre` -/
-theorem substStatic_pre {c : Circ} {i : Nat} {impl : Circ} (wf : WFc c) (hst : substStatic c i impl = true)
-    (hreg : substRegular c i impl = true) : substPre c i impl = true := KV.CircObj.substPre_of_static wf hst hreg
-
-/-- open output pins, structural precondition only: `setPin` predicts from the structure of host pin list and
-implementation which output pins of every copied node hold a line after the call (the prediction is exact:
-`setPin_sound`, `setPin_complete` in Proofs/CircObjSubstOpen.lean); if for every copied FORK the predicted pins form an
-initial segment (`substOpenOK`), the result — after the removal of the dangling logic behind the open pins — satisfies
-`WFc`.  D30 (`exGap`) is exactly a use where `substOpenOK` is false. -/
-theorem substitute_wf_open {c c' : Circ} {i : Nat} {impl : Circ} (wf : WFc c) (hst : substStatic c i impl = true)
-    (hopen : substOpenOK c i impl = true) (h : substituteObj c i impl = some c') : WFc c' :=
-  KV.CircObj.substituteObj_wf_open wf hst hopen h
-
-theorem substStatic_pre_open {c : Circ} {i : Nat} {impl : Circ} (wf : WFc c) (hst : substStatic c i impl = true)
-    (hopen : substOpenOK c i impl = true) : substPre c i impl = true := KV.CircObj.substPre_of_static_open wf hst hopen
+/-- ... in other words the structural condition implies the run-time precondition `substPre` -/
+theorem substStatic_pre {c : Circ} {i : Nat} {impl : Circ} (wf : WFc c) (hst : substStatic c i impl = true) :
+    substPre c i impl = true := KV.CircObj.substPre_of_static wf hst
 
 /-- `c.resolve_tlib_cells(tlib)`: the loop over the snapshot `list(self.nodes)`; `resolvePre` = every substitution it
 performs is a well-formed use -/
 theorem resolve_wf {lib : Lib} {c c' : Circ} (wf : WFc c) (hpre : resolvePre lib c = true) (h : resolveObj lib c = some c') :
     WFc c' := KV.CircObj.resolveObj_wf wf hpre h
 
-/-- `resolve_tlib_cells` when every substitution it performs is a structural one (`resolveStatic`: `substStatic` and
-`substRegular` or `substOpenOK` on the circuit as it is when that substitution starts) -/
+/-- `resolve_tlib_cells` when every substitution it performs satisfies the structural precondition (`resolveStatic`:
+`substStatic` on the circuit as it is when that substitution starts) -/
 theorem resolve_wf_static {lib : Lib} {c c' : Circ} (wf : WFc c) (hst : resolveStatic lib c = true)
     (h : resolveObj lib c = some c') : WFc c' := resolve_wf wf (KV.CircObj.resolvePre_of_static wf hst) h
 
@@ -318,30 +299,31 @@ example : ((run2 empty (exHistory2.take 21)).map fun c => (c.nodes.length, c.lin
 example : ((run2 empty exHistory2).map fun c => (c.nodes.length, c.lines.length, invOK c)) = some (8, 8, true) := by
   decide +kernel
 /-- the structural preconditions hold for the substitution and for the resolution in this history -/
-example : ((run2 empty (exHistory2.take 13)).map fun c => (substStatic c 2 exImpl, substRegular c 2 exImpl)) = some (true, true) := by
-  decide +kernel
+example : ((run2 empty (exHistory2.take 13)).map fun c => substStatic c 2 exImpl) = some true := by decide +kernel
 example : ((run2 empty (exHistory2.take 20)).map fun c => resolveStatic [("INVX", exImpl2)] c) = some true := by decide +kernel
 
-/-- D30: an open output pin whose implementation line leaves a fork below another kept output: the structural
-precondition `substStatic` holds (so the result satisfies `WFc0`), the use is not regular (`substRegular` is false: an
-output is open), the copied fork has a gap and `substPre` is false -/
+/-- D30: an open output pin whose implementation line leaves a fork at a pin below another kept output of that fork (fork
+`F` drives the output port `O1` at pin 0 and a gate at pin 1; the instance pin of `O1` is open).  The structural precondition
+holds; the copied fork is made dense again (`F.outs = [line]`, its `driver_pin` renumbered to 0): 4 nodes, 3 lines, `WFc`. -/
 def exGap : Circ := setState
   { nodes := [("A", "input"), ("F", FORK), ("X", "INV1"), ("O1", "output"), ("O2", "output")],
     lines := [(0, 0, 1, 0), (1, 0, 3, 0), (1, 1, 2, 0), (2, 0, 4, 0)], io := [0, 4, 3] }
-example : ((run2 empty [.base (.addNode "a" "input"), .base (.addNode "u" "CELLX1"), .base (.addNode "o" "output"),
-    .base (.addLine 0 none 1 none), .base (.addLine 1 (some 0) 2 none), .base (.ioAppend 0), .base (.ioAppend 2)]).map fun c =>
-    (substStatic c 1 exGap, substRegular c 1 exGap, substOpenOK c 1 exGap, substPre0 c 1 exGap, substPre c 1 exGap,
-     (substituteObj c 1 exGap).map invOK)) = some (true, false, false, true, false, some false) := by
+def exHistoryGap : List Op2 :=
+  [.base (.addNode "a" "input"), .base (.addNode "u" "CELLX1"), .base (.addNode "o" "output"),
+   .base (.addLine 0 none 1 none), .base (.addLine 1 (some 0) 2 none), .base (.ioAppend 0), .base (.ioAppend 2)]
+example : ((run2 empty exHistoryGap).map fun c => (substStatic c 1 exGap, substPre c 1 exGap)) = some (true, true) := by
+  decide +kernel
+example : ((run2 empty (exHistoryGap ++ [.substitute 1 exGap])).map fun c =>
+    (c.nodes.length, c.lines.length, invOK c, c.nodes.map fun j => (c.nobj j).outs.length)) = some (4, 3, true, [1, 1, 0, 1]) := by
   decide +kernel
 
-/-- an open output pin that leaves no gap: the half adder of `exHistory2` with its second output open — the OR gate behind
-it is dangling and is removed together with its two input lines (two fork squeezes): `substOpenOK` holds, 6 nodes, 5 lines -/
+/-- an open output pin with dangling logic behind it: the half adder of `exHistory2` with its second output open — the OR
+gate behind it is removed together with its two input lines (two fork squeezes): 6 nodes, 5 lines -/
 def exHistoryOpen : List Op2 :=
   [.base (.addNode "a" "input"), .base (.addNode "b" "input"), .base (.addNode "u" "HA"), .base (.addNode "ox" "output"),
    .base (.addLine 0 none 2 (some 0)), .base (.addLine 1 none 2 (some 1)), .base (.addLine 2 (some 0) 3 none),
    .base (.ioAppend 0), .base (.ioAppend 1), .base (.ioAppend 3)]
-example : ((run2 empty exHistoryOpen).map fun c => (substStatic c 2 exImpl, substRegular c 2 exImpl, substOpenOK c 2 exImpl)) =
-    some (true, false, true) := by decide +kernel
+example : ((run2 empty exHistoryOpen).map fun c => substStatic c 2 exImpl) = some true := by decide +kernel
 example : ((run2 empty (exHistoryOpen ++ [.substitute 2 exImpl])).map fun c => (c.nodes.length, c.lines.length, invOK c)) =
     some (6, 5, true) := by decide +kernel
 
